@@ -57,6 +57,9 @@ class Dispatch:
             for pat in PATTERNS:
                 for tr in (False, True):
                     out.append(dict(entry=name, types=pat, transform=tr))
+            # a basis is documented as a list OR a tuple of shells
+            out.append(dict(entry=name, types=PATTERNS[-1], transform=False, container="tuple"))
+            out.append(dict(entry=name, types=PATTERNS[0], transform=True, container="tuple"))
         return out
 
     def run(self, shape, M):
@@ -94,7 +97,7 @@ class Dispatch:
             kwargs["transform"] = U
         fn = getattr(mod, e["fn"])
         with bind.patched(*[(cls, "construct_array_" + w, rec(w)) for w in ("cartesian", "spherical", "mix", "lincomb")]):
-            got = fn(list(shells), *posargs.values(), **kwargs)
+            got = fn(tuple(shells) if shape.get("container") == "tuple" else list(shells), *posargs.values(), **kwargs)
         M.true("dispatch/one-call", len(calls) == 1, "%d assembly calls" % len(calls))
         if len(calls) != 1:
             return
@@ -160,7 +163,8 @@ class DispatchAsymm:
         U1 = M.vec("U", (2, 2)) if shape["tr"][0] else None
         U2 = M.vec("V", (2, 2)) if shape["tr"][1] else None
         with bind.patched((mod.OverlapAsymmetric, "construct_array_lincomb", stub)):
-            got = mod.overlap_integral_asymmetric(list(sa), list(sb), transform_one=U1, transform_two=U2)
+            as_ = tuple if shape["tr"] == [True, False] else list  # a basis is documented as a list or a tuple
+            got = mod.overlap_integral_asymmetric(as_(sa), list(sb), transform_one=U1, transform_two=U2)
         M.true("dispatch/one-call", len(calls) == 1, "")
         inst, a, kw = calls[0]
         M.true("dispatch/basis", all(x is y for x, y in zip(inst.contractions_one, sa)) and all(x is y for x, y in zip(inst.contractions_two, sb))
